@@ -23,7 +23,7 @@ import contracts.C13_alloc_proofs as AP          # pow2 theory (SymInt gains bit
 from contracts.C13_alloc_proofs import AVC, _agg, ov_t
 
 BACKEND = AP.BACKEND
-FEAS_MS = 5000
+FEAS_MS = 2000     # path-feasibility queries only: `unknown` keeps the path (sound); obligations are decided by Ctx.check with its own 20 s limit
 I = z3.IntSort()
 CAT = z3.Function("str.cat", I, I, I); SUF = z3.Function("str.cat_underscore", I, I)
 def _quiet(o):
@@ -72,12 +72,14 @@ def inside_set(ro, rs, co, cs):              # the same, set-theoretically: ever
     return z3.ForAll([x], z3.Implies(z3.And(ro <= x, x < ro + rs), z3.And(co <= x, x < co + cs)))
 
 def _wrap(tag, runner, functions, state, need=(), min_paths=1, extra_cover=lambda stats: True):
-    """runner(wrong) -> (paths, obligations, stats); the case is run a second time with a deliberately wrong postcondition that must be refuted"""
+    """runner(wrong) -> (paths, obligations, stats).  The case runs ONCE with its deliberately wrong postcondition(s) switched on: Ctx.check never
+    changes the path condition, so the `wrong.*` clauses cannot influence the others; they are taken out of the reported obligations and must be
+    REFUTED (vacuity guard: the solver can tell a false clause from a true one in this very setting)"""
     t0 = time.time()
-    paths, obl, stats = runner(False)
+    paths, obl_all, stats = runner(True)
+    obl = [o for o in obl_all if not o[0].startswith("wrong.")]
     out = _agg(tag, obl)
-    _, obl2, _ = runner(True)
-    refuted = any(s == "FAILED" for n, s, _ in obl2 if n.startswith("wrong."))
+    refuted = any(s == "FAILED" for n, s, _ in obl_all if n.startswith("wrong."))
     have = {n for n, _, _ in obl}
     ok = refuted and set(need) <= have and paths >= min_paths and extra_cover(stats)
     out.append(res(f"{tag}.cover.paths;wrong-postcondition-refuted", "cover", OK if ok else VACUOUS, time.time() - t0, "pysym", paths=paths, refuted=refuted,
@@ -389,10 +391,21 @@ class HVC(AVC):
         C.check(f"loop{lid}.init", sp["inv"](L0))
         sp["heap"](L)
         hv = {pos_name: SymInt(C.fresh(pos_name))}
+        for n, kind in sp.get("havoc", {}).items(): hv[n] = kind(L) if callable(kind) else (SymBool(C.fresh(n, z3.BoolSort())) if kind == "bool" else SymInt(C.fresh(n)))
         L2 = dict(L); L2.update(hv)
         C.assume(hv[pos_name] >= 0); C.assume(hv[pos_name] <= self.len(iterable)); C.assume(sp["inv"](L2))
         st["hv"] = hv; st["pos"] = hv[pos_name]; self.st[lid] = st
         return st
+
+    def loop_begin(self, lid, L):
+        sp = self.loops[lid]
+        if "heap" not in sp: return AVC.loop_begin(self, lid, L)
+        C = pysym.CTX
+        C.check(f"loop{lid}.init", sp["inv"](L))
+        sp["heap"](L)
+        hv = {n: (kind(L) if callable(kind) else (SymBool(C.fresh(n, z3.BoolSort())) if kind == "bool" else SymInt(C.fresh(n)))) for n, kind in sp.get("havoc", {}).items()}
+        L2 = dict(L); L2.update(hv); C.assume(sp["inv"](L2))
+        return hv
 
 def _alloc_cut(hnd):
     """the real SoCLocHandler.alloc with its loop over range(self.n_locs) cut: invariant `every number below the position is used`"""
@@ -521,6 +534,7 @@ def _run_csr_init(wrong, ordering="big"):
         except S.SoCError:
             elab.restore_stderr(); stats["raised"] += 1
             ctx.check("raise=>illegal-configuration", z3.Not(legal))
+            if wrong: ctx.check("wrong.raise=>data_width-unsupported", z3.Not(_member(dw.t, CSR_DW)))
             return
         stats["returned"] += 1
         N = toint(h.n_locs); l = h.locs
@@ -690,6 +704,346 @@ def c_csr_add_region():
     return _mark_findings(out, "SoCCSRHandler.add_region has no checks ('FIXME: add checks'): a second region with a name already in use silently replaces the first (reached from SoC.finalize through the same name mangling collision)",
                           "replay_csr_name_mangling_collision")
 
+# =====================================================================================================================================
+# generic_platform.ConstraintManager: get_sig_constraints / get_io_signals / add_extension / request_all / request_remaining
+# (resource model of contracts/C13_alloc_proofs.py: a resource is its identity, name/number are functions of it, the constraint tail is concrete)
+# =====================================================================================================================================
+def _uf(tag, *sorts):
+    c = pysym.CTX; c.k += 1
+    return z3.Function(f"{tag}!{c.k}", *sorts)
+class MObj:
+    """the Record stored beside matched entry i; whether it (still) has the sub-signal `n` is the symbolic HAS(i, n) (a Signal may have been removed from it)"""
+    def __init__(self, i, has): self.__dict__.update(i=i, has=has)
+    def __getattr__(self, n):
+        if n.startswith("__"): raise AttributeError(n)
+        if not bool(SymBool(self.has(self.i, AP._code(n)))): raise AttributeError(n)
+        return ("attribute", n, self.i)
+class MList(AP.PMatched):
+    def __init__(self, name, tail, mkobj): AP.PMatched.__init__(self, name, tail); self.mkobj = mkobj
+    def __getitem__(self, i):
+        it = toint(i)
+        for j, e in enumerate(self.extra):
+            if SymBool(it == self.len0 + j): return e
+        pysym.CTX.assume(z3.And(it >= 0, it < self.len0)); return (AP.PRes(self.res(it), self.tail), self.mkobj(it))
+class RL:
+    """a Python list built by a cut loop: symbolic prefix of length len0 whose element j is described by GHOST coordinates (src(j), sub(j)) - the matched
+    entry and the sub-signal it was made from - followed by the items appended in the current iteration.  idx(i, s) is the ghost inverse."""
+    def __init__(self, tag="r"):
+        self.len0 = pysym.CTX.fresh(f"{tag}.len"); self.src = _uf(f"{tag}.src", I, I); self.sub = _uf(f"{tag}.sub", I, I); self.idx = _uf(f"{tag}.idx", I, I, I); self.extra = []
+    def append(self, x): self.extra.append(x)
+    def length(self): return SymInt(self.len0 + len(self.extra))
+class SymSetP:
+    """a Python set built by a cut loop: its elements are flattened IO signals, identified by (matched entry i, position k in obj.flatten());
+    member(i, k) describes the symbolic part, `extra` the elements added in the current iteration"""
+    def __init__(self, *a):
+        if a: raise Unsupported("set(iterable)")
+        self.member = lambda i_, k_: z3.BoolVal(False); self.extra = []
+    def havoc(self): f = _uf("set.member", I, I, z3.BoolSort()); self.member = lambda i_, k_: f(i_, k_); self.extra = []
+    def add(self, x): self.extra.append((x.oi, x.ok))
+    def update(self, it):
+        for x in it: self.add(x)
+    def has(self, i_, k_): return z3.Or(self.member(i_, k_), *[z3.And(i_ == a, k_ == b) for a, b in self.extra])
+    def length(self): raise Unsupported("len(set)")
+class SObj(GP.Signal):
+    """a Signal stored beside matched entry i (or the k-th signal of the Record stored there); the real Signal constructor is not run"""
+    def __init__(self, i, k=0): self.__dict__.update(oi=i, ok=k)
+    __hash__ = None
+class RObj:
+    def __init__(self, i, n): self.oi, self.n = i, n
+    def flatten(self): return [SObj(self.oi, k) for k in range(self.n)]
+class XList(AP.PList):
+    """AP.PList + what add_extension / request_all need: copy, concatenation, extend; GHOST emb: position in the list -> position in the list it was
+    derived from by removals (kept by remove)"""
+    def __init__(self, name, tail):
+        AP.PList.__init__(self, name, tail); self.emb = None; self.last_removed = None
+    def copy(self):
+        c = XList.__new__(XList); c.__dict__.update(self.__dict__); return c
+    def __add__(self, o):
+        if not isinstance(o, AP.PList): return NotImplemented
+        c = self.copy(); a0, l0, a1 = self.at, self.len, o.at
+        c.at = lambda i: z3.If(i < l0, a0(i), a1(i - l0)); c.len = l0 + o.len; return c
+    def extend(self, o):
+        a0, l0, a1 = self.at, self.len, o.at
+        self.at = lambda i: z3.If(i < l0, a0(i), a1(i - l0)); self.len = l0 + o.len
+    def remove(self, x):
+        emb = self.emb
+        AP.PList.remove(self, x)
+        f = self.removed; self.last_removed = (f, emb)
+        if emb is not None: self.emb = lambda i: z3.If(i < f, emb(i), emb(i + 1))
+class GVC(HVC):
+    def len(self, x):
+        if isinstance(x, AP.PList): return SymInt(x.len)
+        if isinstance(x, AP.PMatched): return SymInt(x.total_len())
+        if isinstance(x, (RL, SymSetP)): return x.length()
+        return HVC.len(self, x)
+    def list(self, x=()):
+        if isinstance(x, AP.PList): return x.copy()
+        return HVC.list(self, x)
+
+def _lexlt(a0, a1, b0, b1): return z3.Or(a0 < b0, z3.And(a0 == b0, a1 < b1))
+
+def _run_sig_constraints(wrong, shape="pins"):
+    AP._init_z3()
+    stats = dict(returned=0)
+    tail = AP._tails()[shape]
+    subs = [e for e in tail if isinstance(e, GP.Subsignal)]
+    nsub = max(1, len(subs))
+    def run(ctx):
+        ctx.solver.set("timeout", FEAS_MS)
+        HAS = z3.Function("obj.has_subsignal", I, I, z3.BoolSort())
+        M = MList("matched", tail, lambda i: MObj(i, HAS)); ctx.assume(SymBool(M.len0 >= 0))
+        cm = GP.ConstraintManager.__new__(GP.ConstraintManager); cm.matched = M; cm.available = AP.PList("available", tail); cm.platform_commands = []
+        cm.connector_manager = GP.ConnectorManager([])
+        a, b_, j, j2 = z3.Ints("a b j j2")
+        def expect(e, i_, s_):
+            """the tuple appended for matched entry i_, sub-signal number s_ is exactly that resource's constraint: (its signal, the pins of the description, the other constraints, (name, number, sub-signal name))"""
+            sig, pins, others, ident = e
+            rid = M.res(i_)
+            if subs:
+                sb = subs[s_]; top = [x for x in tail if not isinstance(x, GP.Subsignal)]
+                want_pins, want_others = GP._separate_pins(top + sb.constraints)
+                okc = isinstance(sig, tuple) and sig[:2] == ("attribute", sb.name) and ident[2] == sb.name and pins == want_pins and len(others) == len(want_others) and all(x is y for x, y in zip(others, want_others))
+                io = sig[2] if isinstance(sig, tuple) else None
+            else:
+                want_pins, want_others = GP._separate_pins(list(tail))
+                okc = isinstance(sig, MObj) and ident[2] is None and pins == want_pins and len(others) == len(want_others) and all(x is y for x, y in zip(others, want_others))
+                io = sig.i if isinstance(sig, MObj) else None
+            if not okc or io is None: return z3.BoolVal(False)
+            return z3.And(io == i_, ident[0].t == AP.RES_NAME(rid), toint(ident[1]) == AP.RES_NUM(rid))
+        def coords(r, pos):
+            """(total length, SRC, SUB, IDX, well-formedness of the items appended in this iteration) of the list r"""
+            if isinstance(r, list):
+                assert not r; return z3.IntVal(0), (lambda x: z3.IntVal(-1)), (lambda x: z3.IntVal(-1)), (lambda i_, s_: z3.IntVal(-1)), z3.BoolVal(True)
+            SRC, SUB, IDX, wf = r.src, r.sub, r.idx, []
+            for e_i, e in enumerate(r.extra):
+                sname = e[3][2]; s_ = [x.name for x in subs].index(sname) if subs else 0
+                wf.append(expect(e, pos, s_))
+                SRC = (lambda f, n_=e_i: lambda x: z3.If(x == r.len0 + n_, pos, f(x)))(SRC)
+                SUB = (lambda f, n_=e_i, sv=s_: lambda x: z3.If(x == r.len0 + n_, sv, f(x)))(SUB)
+                IDX = (lambda f, n_=e_i, sv=s_: lambda i_, q_: z3.If(z3.And(i_ == pos, q_ == sv), r.len0 + n_, f(i_, q_)))(IDX)
+            return r.len0 + len(r.extra), SRC, SUB, IDX, z3.And(*wf) if wf else z3.BoolVal(True)
+        def present(i_, s_): return HAS(i_, AP._code(subs[s_].name)) if subs else z3.BoolVal(True)
+        def inv_at(r, done, pos_cur):
+            TL, SRC, SUB, IDX, wf = coords(r, pos_cur)
+            cl = [TL >= 0, wf,
+                  z3.ForAll([j], z3.Implies(z3.And(0 <= j, j < TL), z3.And(0 <= SRC(j), SRC(j) < done, 0 <= SUB(j), SUB(j) < nsub))),
+                  z3.ForAll([j, j2], z3.Implies(z3.And(0 <= j, j < j2, j2 < TL), _lexlt(SRC(j), SUB(j), SRC(j2), SUB(j2))))]
+            if not subs: cl += [TL == done, z3.ForAll([j], z3.Implies(z3.And(0 <= j, j < TL), SRC(j) == j))]      # without sub-signals: exactly one item per entry
+            for s_ in range(nsub):
+                cl.append(z3.ForAll([a], z3.Implies(z3.And(0 <= a, a < done, present(a, s_)), z3.And(0 <= IDX(a, z3.IntVal(s_)), IDX(a, z3.IntVal(s_)) < TL, SRC(IDX(a, z3.IntVal(s_))) == a, SUB(IDX(a, z3.IntVal(s_))) == s_))))
+            return z3.And(*cl), (TL, SRC, SUB, IDX)
+        def inv(L):
+            q = toint(L["q"]); r = L["r"]
+            # loop_init: q = 0, r = []; loop step: called with q = position + 1 and r = prefix + the items of entry `position`
+            return inv_at(r, q, q - 1)[0]
+        loops = {0: dict(pos="q", heap=lambda L: None, havoc={"r": lambda L: RL("r")}, inv=inv)}
+        vc = GVC(loops)
+        fn, src = rewrite(GP.ConstraintManager.get_sig_constraints, loops, vc)
+        assert src.count("__vc.for_begin(0,") == 1 and "self.matched" in src, "loop structure of get_sig_constraints changed"
+        r = fn(cm)
+        stats["returned"] += 1
+        ctx.check("post.returns-the-list;manager-state-unchanged", z3.BoolVal(isinstance(r, RL) and not r.extra and cm.matched is M and not M.extra))
+        if not isinstance(r, RL): return
+        (_, (TL, SRC, SUB, IDX)) = inv_at(r, M.len0, M.len0)
+        ctx.check("post.every-constraint-belongs-to-a-MATCHED-resource(nothing-for-available/unknown-ones)", z3.ForAll([j], z3.Implies(z3.And(0 <= j, j < TL), z3.And(0 <= SRC(j), SRC(j) < M.len0))))
+        ctx.check("post.each-(matched-resource,sub-signal)-appears-at-most-once,in-request-order", z3.ForAll([j, j2], z3.Implies(z3.And(0 <= j, j < j2, j2 < TL), _lexlt(SRC(j), SUB(j), SRC(j2), SUB(j2)))))
+        ctx.check("post.every-matched-resource-has-its-constraint(for-each-sub-signal-the-object-still-has)", z3.And(*[z3.ForAll([a], z3.Implies(z3.And(0 <= a, a < M.len0, present(a, s_)),
+                    z3.Exists([j], z3.And(0 <= j, j < TL, SRC(j) == a, SUB(j) == s_)))) for s_ in range(nsub)]))
+        if not subs: ctx.check("post.exactly-one-constraint-per-matched-resource", z3.And(TL == M.len0, z3.ForAll([j], z3.Implies(z3.And(0 <= j, j < TL), SRC(j) == j))))
+        # identifiers (name, number, sub-signal) are pairwise different when the description has no two resources with the same (name, number)  [sub-signal names of the shape are pairwise different]
+        uniq_desc = z3.ForAll([a, b_], z3.Implies(z3.And(0 <= a, a < b_, b_ < M.len0), z3.Not(z3.And(AP.RES_NAME(M.res(a)) == AP.RES_NAME(M.res(b_)), AP.RES_NUM(M.res(a)) == AP.RES_NUM(M.res(b_))))))
+        ident_eq = lambda x, y: z3.And(AP.RES_NAME(M.res(SRC(x))) == AP.RES_NAME(M.res(SRC(y))), AP.RES_NUM(M.res(SRC(x))) == AP.RES_NUM(M.res(SRC(y))), SUB(x) == SUB(y))
+        ctx.check("post.description-has-unique-(name,number)=>constraint-identifiers-(name,number,sub-signal)-pairwise-different", z3.Implies(z3.And(uniq_desc, z3.BoolVal(len({x.name for x in subs}) == len(subs))), z3.ForAll([j, j2], z3.Implies(z3.And(0 <= j, j < j2, j2 < TL), z3.Not(ident_eq(j, j2))))))
+        if wrong: ctx.check("wrong.at-most-one-constraint", TL <= 1)
+    paths, obl = explore(run, max_paths=4000)
+    return paths, obl, stats
+
+def c_sig_constraints(shape):
+    return _wrap(f"ConstraintManager.get_sig_constraints[{shape}]", lambda w: _run_sig_constraints(w, shape), ["litex.build.generic_platform.ConstraintManager.get_sig_constraints", "litex.build.generic_platform._separate_pins",
+                 "litex.build.generic_platform.ConnectorManager.resolve_identifiers (concrete pins, no connector)"],
+                 "unbounded symbolic matched list (one constraint shape), symbolic presence of each sub-signal in the stored Record", need=("loop0.init", "loop0.step"), extra_cover=lambda s: s["returned"] >= 1)
+
+def _run_io_signals(wrong, shape="pins"):
+    AP._init_z3()
+    stats = dict(returned=0)
+    tail = AP._tails()[shape]
+    nflat = max(1, len([e for e in tail if isinstance(e, GP.Subsignal)]))
+    is_record = any(isinstance(e, GP.Subsignal) for e in tail)
+    def run(ctx):
+        ctx.solver.set("timeout", FEAS_MS)
+        M = MList("matched", tail, (lambda i: RObj(i, nflat)) if is_record else (lambda i: SObj(i))); ctx.assume(SymBool(M.len0 >= 0))
+        cm = GP.ConstraintManager.__new__(GP.ConstraintManager); cm.matched = M; cm.available = AP.PList("available", tail)
+        a, k = z3.Ints("a k")
+        def inv(L):
+            q = toint(L["q"]); r = L["r"]
+            return z3.ForAll([a, k], r.has(a, k) == z3.And(0 <= a, a < q, 0 <= k, k < nflat))
+        loops = {0: dict(pos="q", heap=lambda L: L["r"].havoc(), inv=inv)}
+        vc = GVC(loops)
+        fn, src = rewrite(GP.ConstraintManager.get_io_signals, loops, vc)
+        assert src.count("__vc.for_begin(0,") == 1, "loop structure of get_io_signals changed"
+        fn.__globals__["set"] = SymSetP
+        r = fn(cm)
+        stats["returned"] += 1
+        ctx.check("post.returns-the-set;manager-state-unchanged", z3.BoolVal(isinstance(r, SymSetP) and not r.extra and cm.matched is M and not M.extra))
+        ctx.check("post.the-set-holds-exactly-the-signals-of-the-objects-of-MATCHED-resources", z3.ForAll([a, k], r.has(a, k) == z3.And(0 <= a, a < M.len0, 0 <= k, k < nflat)))
+        if wrong: ctx.check("wrong.only-the-first-matched-object", z3.ForAll([a, k], z3.Implies(r.has(a, k), a == 0)))
+    paths, obl = explore(run)
+    return paths, obl, stats
+
+def c_io_signals(shape):
+    return _wrap(f"ConstraintManager.get_io_signals[{shape}]", lambda w: _run_io_signals(w, shape), ["litex.build.generic_platform.ConstraintManager.get_io_signals"],
+                 "unbounded symbolic matched list; stored objects are Signals (pins) or Records of two signals (record)", need=("loop0.init", "loop0.step"), extra_cover=lambda s: s["returned"] >= 1)
+
+def _run_add_extension(wrong, prepend=False):
+    AP._init_z3()
+    stats = dict(returned=0)
+    tail = AP._tails()["pins"]
+    def run(ctx):
+        ctx.solver.set("timeout", FEAS_MS)
+        A = XList("available", tail); M = AP.PMatched("matched", tail); E = XList("io", tail)
+        ctx.assume(SymBool(z3.And(A.len >= 0, M.len0 >= 0, E.len >= 0)))
+        A0at, A0len, Eat, Elen = A.at, A.len, E.at, E.len
+        a, b_ = z3.Ints("a b")
+        ctx.assume(SymBool(AP._cm_inv(A0at, A0len, M.res, M.len0)))
+        # environment: the extension lists every resource once and none of them is already known to the manager
+        ctx.assume(SymBool(z3.And(z3.ForAll([a, b_], z3.Implies(z3.And(0 <= a, a < b_, b_ < Elen), Eat(a) != Eat(b_))),
+                                  z3.ForAll([a, b_], z3.Implies(z3.And(0 <= a, a < Elen, 0 <= b_, b_ < A0len), Eat(a) != A0at(b_))),
+                                  z3.ForAll([a, b_], z3.Implies(z3.And(0 <= a, a < Elen, 0 <= b_, b_ < M.len0), Eat(a) != M.res(b_))))))
+        cm = GP.ConstraintManager.__new__(GP.ConstraintManager); cm.available = A; cm.matched = M; cm.platform_commands = []
+        vc = GVC({})
+        fn, src = rewrite(GP.ConstraintManager.add_extension, {}, vc)
+        fn(cm, E, prepend)
+        stats["returned"] += 1
+        N = cm.available
+        want = (lambda i: z3.If(i < Elen, Eat(i), A0at(i - Elen))) if prepend else (lambda i: z3.If(i < A0len, A0at(i), Eat(i - A0len)))
+        ctx.check("post.available==" + ("io++available" if prepend else "available++io"), z3.And(N.len == A0len + Elen, z3.ForAll([a], z3.Implies(z3.And(0 <= a, a < N.len), N.at(a) == want(a)))))
+        ctx.check("post.matched-and-io-unchanged", z3.BoolVal(cm.matched is M and not M.extra and E.at is Eat and E.len is Elen))
+        ctx.check("post.invariant(no-resource-twice-or-in-both-lists)", AP._cm_inv(N.at, N.len, M.res, M.len0))
+        if wrong: ctx.check("wrong.first-available-resource-unchanged", z3.Implies(A0len > 0, N.at(0) == A0at(0)) if prepend else z3.Implies(N.len > 0, N.at(N.len - 1) == A0at(A0len - 1)))
+    paths, obl = explore(run)
+    return paths, obl, stats
+
+def c_add_extension(prepend):
+    return _wrap(f"ConstraintManager.add_extension[prepend={prepend}]", lambda w: _run_add_extension(w, prepend), ["litex.build.generic_platform.ConstraintManager.add_extension"],
+                 "arbitrary manager state satisfying the invariant; unbounded symbolic extension list of new, pairwise different resources", extra_cover=lambda s: s["returned"] >= 1)
+
+class _NamedVC(GVC):
+    """GVC whose loop obligations carry a prefix (two rewritten functions with a loop 0 each take part in one case)"""
+    def __init__(self, loops, prefix): GVC.__init__(self, loops); self.prefix = prefix
+    def _ren(self, n0):
+        ob = pysym.CTX.obligations
+        for x in range(n0, len(ob)):
+            if ob[x][0].startswith("loop"): ob[x] = (self.prefix + ob[x][0],) + tuple(ob[x][1:])
+    def for_begin(self, lid, it, L):
+        n0 = len(pysym.CTX.obligations)
+        try: return GVC.for_begin(self, lid, it, L)
+        finally: self._ren(n0)
+    def for_end(self, lid, st, L):
+        n0 = len(pysym.CTX.obligations)
+        try: return GVC.for_end(self, lid, st, L)
+        finally: self._ren(n0)
+class OList:
+    """the local list r of request_all / request_remaining: only its length matters (its items are the returned Signals/Records)"""
+    def __init__(self): self.len0 = pysym.CTX.fresh("r.len"); self.extra = []
+    def append(self, x): self.extra.append(x)
+    def length(self): return SymInt(self.len0 + len(self.extra))
+GVC_len0 = GVC.len
+def _gvc_len(self, x):
+    if isinstance(x, OList): return x.length()
+    return GVC_len0(self, x)
+GVC.len = _gvc_len
+
+def _run_request_loop(wrong, which="request_all", shape="pins"):
+    """request_all(name) / request_remaining(name): the real function with its `while True` loop cut; the real request() and _lookup() (loop cut) run inside"""
+    AP._init_z3()
+    stats = dict(returned=0, raised=0)
+    tail = AP._tails()[shape]; numbered = which == "request_all"
+    name = "thing"; NM = AP._code(name)
+    def run(ctx):
+        ctx.solver.set("timeout", 400)        # feasibility only (every such query here is a satisfiable formula with quantifiers that z3 answers `unknown`): the path is kept
+        A0 = XList("available", tail); M0 = AP.PMatched("matched", tail)
+        ctx.assume(SymBool(z3.And(A0.len >= 0, M0.len0 >= 0)))
+        A0at, A0len, M0res, M0len = A0.at, A0.len, M0.res, M0.len0
+        ctx.assume(SymBool(AP._cm_inv(A0at, A0len, M0res, M0len)))
+        A0.emb = lambda i: i
+        cm = GP.ConstraintManager.__new__(GP.ConstraintManager); cm.available = A0; cm.matched = M0; cm.platform_commands = []
+        a, b_, i_ = z3.Ints("a b i_")
+        def match(g, num): return z3.And(AP.RES_NAME(g) == NM, *([AP.RES_NUM(g) == num] if numbered else []))
+        # ---- callee: the real _lookup, loop cut (invariant over ITS arguments), and the real request around it
+        lk_loops = {0: dict(pos="i", inv=lambda L: z3.ForAll([a], z3.Implies(z3.And(0 <= a, a < toint(L["i"])),
+                        z3.Not(z3.And(AP.RES_NAME(L["description"].at(a)) == AP._code(L["name"]), *([AP.RES_NUM(L["description"].at(a)) == toint(L["number"])] if L["number"] is not None else []))))))}
+        lk, src = rewrite(GP._lookup, lk_loops, _NamedVC(lk_loops, "_lookup."))
+        assert src.count("__vc.for_begin(0,") == 1, "loop structure of _lookup changed"
+        rq, _ = rewrite(GP.ConstraintManager.request, {}, GVC({}))
+        rq.__globals__["_lookup"] = lk
+        rq.__globals__["str"] = lambda x: "0" if isinstance(x, SymInt) else str(x)
+        cm.request = lambda nm, number=None, loose=False: rq(cm, nm, number, loose)
+        # ---- the cut loop of request_all / request_remaining
+        W = _uf("ghost.W", I, I)                         # GHOST: position in the ORIGINAL available list of the i-th granted resource
+        def state(cmx, r):
+            A, M = cmx.available, cmx.matched
+            jl = toint(r.length()) if isinstance(r, OList) else z3.IntVal(len(r))
+            Mres = M.res
+            for e_i, (g_res, _o) in enumerate(M.extra): Mres = (lambda f, n_=e_i, g=g_res.rid: lambda x: z3.If(x == M.len0 + n_, g, f(x)))(Mres)
+            return A, Mres, M.len0 + len(M.extra), jl
+        def inv(L):
+            cmx = L["self"]; A, Mres, Mlen, jl = state(cmx, L["r"])
+            emb = A.emb; Wf = W
+            if A.last_removed is not None:                  # ghost update for the resource granted in this iteration: it sat at position f of the list before the removal
+                f, emb_before = A.last_removed; Wf = lambda x: z3.If(x == jl - 1, emb_before(f), W(x))
+            return z3.And(AP._cm_inv(A.at, A.len, Mres, Mlen),
+                          jl >= 0, Mlen == M0len + jl, A.len == A0len - jl,
+                          z3.ForAll([a], z3.Implies(z3.And(0 <= a, a < M0len), Mres(a) == M0res(a))),
+                          z3.ForAll([a], z3.Implies(z3.And(0 <= a, a < jl), match(Mres(M0len + a), a))),
+                          z3.ForAll([a], z3.Implies(z3.And(0 <= a, a < A.len), z3.And(0 <= emb(a), emb(a) < A0len, A.at(a) == A0at(emb(a))))),
+                          z3.ForAll([a, b_], z3.Implies(z3.And(0 <= a, a < b_, b_ < A.len), emb(a) < emb(b_))),
+                          z3.ForAll([a], z3.Implies(z3.And(0 <= a, a < jl), z3.And(0 <= Wf(a), Wf(a) < A0len, A0at(Wf(a)) == Mres(M0len + a)))),
+                          z3.Implies(jl == 0, z3.ForAll([a], z3.Implies(z3.And(0 <= a, a < A.len), A.at(a) == A0at(a)))))
+        def heap(L):
+            cmx = L["self"]
+            A = XList(f"available!{ctx.k}", tail); ctx.k += 1; e = _uf("ghost.emb", I, I); A.emb = lambda i: e(i)
+            M = AP.PMatched(f"matched!{ctx.k}", tail); ctx.k += 1
+            cmx.available = A; cmx.matched = M
+        loops = {0: dict(heap=heap, havoc={"r": lambda L: OList()}, inv=inv)}
+        vc = GVC(loops)
+        fn, src = rewrite(getattr(GP.ConstraintManager, which), loops, vc)
+        assert src.count("__vc.loop_begin(0,") == 1, f"loop structure of {which} changed"
+        fn.__globals__["Cat"] = lambda r: ("Cat", r)
+        try:
+            out = fn(cm, name)
+        except ValueError:
+            stats["raised"] += 1
+            A, M = cm.available, cm.matched
+            ctx.check("ValueError=>nothing-granted,state-unchanged", z3.And(A.len == A0len, z3.ForAll([a], z3.Implies(z3.And(0 <= a, a < A0len), A.at(a) == A0at(a))),
+                                                                             z3.BoolVal(not M.extra), M.len0 == M0len, z3.ForAll([a], z3.Implies(z3.And(0 <= a, a < M0len), M.res(a) == M0res(a)))))
+            ctx.check("ValueError=>no-available-resource-matches-" + ("(name,0)" if numbered else "name"), z3.ForAll([a], z3.Implies(z3.And(0 <= a, a < A0len), z3.Not(match(A0at(a), 0)))))
+            return
+        except GP.ConstraintError:
+            ctx.check("no-ConstraintError-escapes", z3.BoolVal(False)); return
+        stats["returned"] += 1
+        r = out[1]
+        A, Mres, Mlen, jl = state(cm, r)
+        ctx.check("post.returns-Cat-of-the-granted-objects,at-least-one", z3.And(z3.BoolVal(out[0] == "Cat" and isinstance(r, OList) and not r.extra), jl >= 1))
+        ctx.check("post.invariant(no-resource-twice-or-in-both-lists)", AP._cm_inv(A.at, A.len, Mres, Mlen))
+        ctx.check("post.matched==matched0++granted;granted[i]-matches-" + ("(name,i)" if numbered else "name"), z3.And(Mlen == M0len + jl, z3.ForAll([a], z3.Implies(z3.And(0 <= a, a < M0len), Mres(a) == M0res(a))),
+                                                                   z3.ForAll([a], z3.Implies(z3.And(0 <= a, a < jl), match(Mres(M0len + a), a)))))
+        ctx.check("post.every-granted-resource-was-available-before,is-not-available-any-more,was-not-matched-before", z3.ForAll([a], z3.Implies(z3.And(0 <= a, a < jl),
+                    z3.And(z3.Exists([b_], z3.And(0 <= b_, b_ < A0len, A0at(b_) == Mres(M0len + a))),
+                           z3.ForAll([b_], z3.Implies(z3.And(0 <= b_, b_ < A.len), A.at(b_) != Mres(M0len + a))),
+                           z3.ForAll([b_], z3.Implies(z3.And(0 <= b_, b_ < M0len), M0res(b_) != Mres(M0len + a)))))))
+        ctx.check("post.granted-resources-pairwise-different(each-to-one-client)", z3.ForAll([a, b_], z3.Implies(z3.And(0 <= a, a < b_, b_ < jl), Mres(M0len + a) != Mres(M0len + b_))))
+        ctx.check("post.available-afterwards-is-a-subsequence-of-available-before,shorter-by-the-number-granted", z3.And(A.len == A0len - jl,
+                    z3.ForAll([a], z3.Implies(z3.And(0 <= a, a < A.len), z3.Exists([b_], z3.And(0 <= b_, b_ < A0len, A0at(b_) == A.at(a)))))))
+        ctx.check("post.stops-only-when-" + ("(name,len(r))-is-not-available" if numbered else "no-resource-of-that-name-is-available"), z3.ForAll([a], z3.Implies(z3.And(0 <= a, a < A.len), z3.Not(match(A.at(a), jl)))))
+        if wrong: ctx.check("wrong.exactly-one-granted", jl == 1)
+    paths, obl = explore(run, max_paths=4000)
+    return paths, obl, stats
+
+def c_request_loop(which, shape):
+    return _wrap(f"ConstraintManager.{which}[{shape}]", lambda w: _run_request_loop(w, which, shape), [f"litex.build.generic_platform.ConstraintManager.{which}", "litex.build.generic_platform.ConstraintManager.request (run unmodified inside the cut loop)",
+                 "litex.build.generic_platform._lookup (loop-cut)"], "arbitrary manager state satisfying the invariant (unbounded available / matched lists)",
+                 need=("loop0.init", "loop0.step", "_lookup.loop0.init", "_lookup.loop0.step"), extra_cover=lambda s: s["returned"] >= 1 and s["raised"] >= 1)
+
 def cases(tier):
     cs = [Case("check_region_is_in(proof)", c_is_in), Case("check_region_is_io(proof)", c_is_io),
           Case("add_region(proof,fixed-origin,io-rule,names)", c_add_fixed), Case("add_region(proof,SoCIORegion)", c_add_io), Case("add_region(proof,not-a-region)", c_add_other)]
@@ -700,6 +1054,10 @@ def cases(tier):
     cs += [Case(f"SoCCSRHandler.__init__(proof,reserved_csrs,aw{aw},paging0x{pg:x})", c_csr_reserved, aw, pg) for aw, pg in geoms]
     cs += [Case("SoCIRQHandler.__init__(proof)", c_irq_init), Case("SoCCSRHandler.address_map(proof,memory=None)", c_address_map, False), Case("SoCCSRHandler.address_map(proof,memory)", c_address_map, True),
            Case("SoCCSRHandler.add_region(proof)", c_csr_add_region)]
+    cs += [Case(f"ConstraintManager.get_sig_constraints(proof,{sh})", c_sig_constraints, sh) for sh in ("pins", "record", "info")]
+    cs += [Case(f"ConstraintManager.get_io_signals(proof,{sh})", c_io_signals, sh) for sh in ("pins", "record")]
+    cs += [Case(f"ConstraintManager.add_extension(proof,prepend={pp})", c_add_extension, pp) for pp in (False, True)]
+    cs += [Case(f"ConstraintManager.{w}(proof,{sh})", c_request_loop, w, sh) for w, sh in (("request_all", "pins"), ("request_remaining", "pins"), ("request_remaining", "record"))]
     return cs
 
 ASSUMPTIONS = []
